@@ -199,6 +199,8 @@ def compute_features(case):
             kinds.add("truncate-regrow")
         elif tag == "bump":
             kinds.add("version-bump")
+        elif tag == "setver":
+            kinds.add("version-set")
         elif tag in ("treimport", "twrite", "tflush"):
             kinds.add("target-io")
         trace.append(tag)
@@ -674,7 +676,7 @@ def run_property(ctx, cfg, replay):
     corpus_cases = 0
     if os.path.isdir(corpus_dir):
         for fn in sorted(os.listdir(corpus_dir)):
-            if not fn.endswith(".ops") or any(k.get("witness", "").endswith(fn) for k in known):
+            if not fn.endswith(".ops") or any(k.get("witness", "").endswith(fn) and k.get("status") == "known" for k in known):
                 continue
             eng = fn.split("__")[0] if "__" in fn else runs[0].engine
             run = next((r for r in runs if r.engine == eng), runs[0])
@@ -782,15 +784,11 @@ def handle_failure(ctx, run, case, f, known, shrink_it, origin):
     ctx.log(f"FAILURE ({kind}) in {origin} at request {idx} `{case['ops'][idx][:80]}`: {msg[:300]}")
     if shrink_it:
         try:
-            small = shrink(ctx, run, case, kind)
+            small = shrink(ctx, run, case, kind, accept=lambda c, r: match_known(known, run, c, r) is None)
             f2 = analyse_case(run, small)
-            if f2 and f2[0] == kind:
+            if f2 and f2[0] == kind and match_known(known, run, small, f2) is None:
                 case, f = small, f2
                 kind, idx, msg = f
-                k = match_known(known, run, case, f)
-                if k is not None:
-                    ctx.known_hits[k["id"]] = ctx.known_hits.get(k["id"], 0) + 1
-                    return
         except Machinery as e:
             ctx.log(f"shrink failed: {e}")
     payload = {
